@@ -109,6 +109,9 @@ static const int chan_stack[CH_MAX] = {
 static const int chan_dup[CH_MAX] = {
 	[CH_TYPE] = 1,
 	[CH_RANK] = 1,
+	/* Can push twice ST_TASK_BODY when a task is nested over another
+	 * without subsystem events in between, like in nOS-V. */
+	[CH_SUBSYSTEM] = 1,
 };
 
 
